@@ -21,7 +21,7 @@ from .c16 import datetime_julian, yearlen_sites
 
 MANIFEST = {
     "level": "other",
-    "technique": "static analysis: polynomial extraction from symbolically evaluated function bodies (partial evaluation per literal target), equality of polynomial copies, audit of finder constants against the fundamental-argument polynomials with three-valued tolerances, structural identities for parallax and illuminated fraction, exhaustive-dispatch rule, exact decision table of the fractional-year denominator against the day number of 31 December on every class of year, unit inference",
+    "technique": "static analysis: polynomial extraction from symbolically evaluated function bodies (partial evaluation per literal target), equality of polynomial copies, audit of finder constants (constant, rate and secular k^2 term of every argument) against the fundamental-argument polynomials with three-valued tolerances, structural identities for parallax and illuminated fraction, exhaustive-dispatch rule, exact decision table of the fractional-year denominator against the day number of 31 December on every class of year, unit inference",
     "text": "The finders' spacing and phase bookkeeping (period, reference epoch, argument rates and constants, year-to-lunation conversion) are decided against the library's own lunar theory for all queries at once; copies of the fundamental arguments are shown identical; the fractional year feeding each lunation count divides by at least the length of its year on every class of year (so it cannot run backwards at New Year); the parallax and illuminated-fraction formulas are shown to be the stated closed forms. Physical bounds on distance/latitude/rates and the agreement of the finders' periodic correction series with the position theory depend on hundreds of runtime series terms and are not decided.",
     "note": "Trusted: coarse physical windows (+-0.1 %) that label the fundamental arguments D, M, M', F, L', Omega by their rates; the property's tolerances (0.06 deg, 0.25 d, 0.02 deg). Undecided: distance/latitude/rate bounds, finder-vs-theory agreement of the corr series, spacing within natural variation, the southern-declination constant 1.13951 (impact 1e-4 d, proved harmless).",
 }
@@ -282,6 +282,22 @@ def finders(repo, rep, ref):
                         what = "argument %s: constant %.4f vs fundamental polynomial at the reference JDE %.4f (d %.4f deg; sensitivity <= %.3f d/rad)" \
                             % (role, c0, exp0, d0, A)
                     verdict(rep, "R-TABLE-REL", site + ":%s.%s" % (role, kind), "arg-%s:%s" % (kind, role), upper, tol, what, lower=lower)
+                # secular (quadratic) term: coefficient of k^2 must be the T^2 coefficient of the fundamental argument times
+                # (centuries per lunation)^2; it matters at the ends of the domain, where k^2 reaches kmax^2
+                s_ = P_ref / 36525.0
+                r2 = float(rp[2]) if len(rp) > 2 else 0.0
+                r3 = float(rp[3]) if len(rp) > 3 else 0.0
+                # T(k) = (JDE_mean(k) - J2000)/36525 is itself quadratic in k (secular term of the mean event): its k^2 coefficient
+                # times the argument's rate contributes as well
+                j2 = float(jd[0][2]) if len(jd[0]) > 2 else 0.0
+                exp2 = (r2 + 3.0 * r3 * T0) * s_ * s_ + float(rp[1]) * j2 / 36525.0
+                c2 = float(p[2]) if len(p) > 2 else 0.0
+                d2 = c2 - exp2
+                rad2 = math.radians(abs(d2)) * kmax * kmax
+                what2 = "argument %s: k^2 coefficient %.3e vs T^2 coefficient %.7f x (centuries per lunation)^2 + rate x k^2 term of the mean JDE = %.3e (d %.1e deg x %d^2 lunations; sensitivity <= %.3f d/rad)" \
+                    % (role, c2, r2, exp2, d2, kmax, A)
+                verdict(rep, "R-TABLE-REL", site + ":%s.quad" % role, "arg-quad:%s" % role, A * rad2, tol, what2,
+                        lower=max(0.0, 2 * amax - A) * min(rad2, 1.0))
             # R-EFACTOR: a term whose argument contains n*M (Sun's mean anomaly) carries the factor E^|n|
             m_c0 = None
             for p in ps:
